@@ -173,8 +173,7 @@ def _partial_parse():
         m = core.load_repo()
         from ctparse.partial_parse import PartialParse
         txt = "tomorrow 8pm xyz"
-        ms = m._match_regex(txt, m.global_regex)
-        seq = m._regex_stack(txt, ms)[0]
+        seq = gen.one_sequence(txt)
         _pp_cache["pp"] = (txt, PartialParse.from_regex_matches(seq), seq)
     return _pp_cache["pp"]
 
